@@ -381,10 +381,15 @@ class RandomWalk(Processor):
         ----------
         meta_molecule:  :class:`polyply.src.meta_molecule.MetaMolecule`
         """
-        if not self.start_node:
-            first_node = _find_starting_node(meta_molecule)
-        else:
+        if self.start_node:
             first_node = self.start_node
+        elif meta_molecule.root is not None:
+            # the root has been chosen already (e.g. the start of a
+            # persistence length restraint); the search tree and the
+            # distance restraints are defined with respect to it
+            first_node = meta_molecule.root
+        else:
+            first_node = _find_starting_node(meta_molecule)
 
         meta_molecule.root = first_node
 
